@@ -11,7 +11,10 @@ CORPUS = [["a\n", "b\n"], ["a # c\n", "b\n"], ["cat <<E\nx\nE\n", "b\n"], ["a |\
 
 
 TEMPLATES = ["cat %s\n", "cat %s %s\n", "cat %s %s %s\n", "cat %s; cat %s # c\n", "{ cat %s; cat 3%s; }\n", "cat %s | cat %s &&\n\x00  echo x\n", "cat %s &&\n\x00cat %s\n",
-             "if cat %s; then cat %s; fi\n", "x=$(cat %s\n\x00) y %s\n"]
+             "if cat %s; then cat %s; fi\n", "x=$(cat %s\n\x00) y %s\n",
+             # a comment or a line continuation at a line break that the lexer skips itself, here-documents pending
+             "cat %s | # c\n\x00cat\n", "cat %s && # note\n\x00cat %s\n", "cat %s ||#\n\x00b\n", "cat %s | \\\n cat\n", "cat %s &&\\\n\tcat %s\n",
+             "cat %s | \\\n # c\n\x00cat\n", "case x in a) cat %s ;; # c\n\x00esac\n", "case x in a) cat %s ;; \\\n esac\n"]
 
 
 def heredoc_cmd(rnd):
